@@ -139,6 +139,34 @@ def _timeline(rec, rng, sim, R, V, srv, pi, pt, n, monitor, rto, desc):
                 sim.quiesce()
                 ws2.close()
                 sim.quiesce()
+        elif k < 0.64 and not R.ended(s) and s.mode == 'polling' and \
+                s.plan == 'polling' and s.delay <= pt / 2.0 and \
+                s.up_state not in ('started', 'probed'):
+            # an upgrade attempt that is still open when the next PING falls
+            # due, and is then aborted by an undecodable frame (the
+            # handshake ends with an exception): the PING is delivered by
+            # the next poll and the heartbeat goes on
+            eps = min(pt / 8.0, 2.0 ** -6)
+            last = s.pongs[-1] if s.pongs else s.open_t
+            due = last + pi
+            if due - eps > sim.now and due - sim.now < horizon / steps:
+                rec.count('upgrade_attempts_spanning_a_ping')
+                sim.advance(due - eps - sim.now)
+                # (while the attempt is open polls are answered NOOP: a PING
+                # emitted inside this window reaches the client at its end)
+                s.holds = getattr(s, 'holds', []) + [[sim.now, None]]
+                ws = R.upgrade_start(s, 'manual')
+                sim.quiesce()
+                if rng.random() < 0.5:
+                    ws.send('2probe')
+                    sim.quiesce()
+                sim.advance(2 * eps)
+                ws.send('x')
+                sim.quiesce()
+                ws.close()
+                sim.quiesce()
+                s.holds[-1][1] = sim.now
+                R.upgrade_failed(s)
         # (no overlapping polls here: a second concurrent GET is a client
         # protocol violation which the server may answer by closing)
     sim.quiesce()
@@ -165,6 +193,13 @@ def _timeline(rec, rng, sim, R, V, srv, pi, pt, n, monitor, rto, desc):
         exp = s.open_t + pi
         for k, tping in enumerate(s.pings):
             rec.count('ping_schedule')
+            for a, b in getattr(s, 'holds', []):
+                if b is not None and a - TOL <= exp <= b + TOL and \
+                        exp - TOL <= tping <= b + TOL:
+                    # emitted on time; a poll that was already pending gets
+                    # it at once, one that started inside the attempt is
+                    # answered NOOP and the PING waits for the attempt's end
+                    exp = tping
             if abs(tping - exp) > TOL:
                 V('ping-schedule', 'session %d (%s): PING #%d handed to the '
                   'client at t=%.9f, expected %.9f (= %s + ping_interval)' % (
@@ -179,6 +214,20 @@ def _timeline(rec, rng, sim, R, V, srv, pi, pt, n, monitor, rto, desc):
     victims = [s for s in R.S if rng.random() < 0.6] or [R.S[0]]
     sim.advance(rng.choice([0, pi / 3.0, pt / 2.0]))
     for s in victims:
+        # a peer that goes away BETWEEN a PING and its (delayed) PONG, having
+        # sent one more message in between: the unanswered PING still counts
+        if s.delay > 0 and not R.ended(s) and len(victims) <= 3 and \
+                rng.random() < 0.5:
+            n0 = len(s.pings)
+            sim.run_until(lambda: len(s.pings) > n0, pi + pt)
+            if len(s.pings) > n0 and len(s.pongs) < len(s.pings):
+                rec.count('vanish_between_ping_and_pong')
+                uid, data, wire = R.up_payload(s, 'text')
+                if s.mode == 'websocket':
+                    R.ws_send(s, wire)
+                else:
+                    R.post_raw(s, wire)
+                sim.quiesce()
         # the starved-poll case: a polling client that stops answering but
         # keeps its poll open (monitor off) - otherwise it just vanishes
         s.keep_poll = (not monitor and s.mode == 'polling' and
